@@ -153,7 +153,7 @@ Seg(g, s, op, now) ==
             THEN {Out([s EXCEPT !.back[k] = 0], op, TRUE, IF op.ex \/ s.back[k] # 0 THEN 1 ELSE 0, "-")}
             ELSE LET s1 == IF s.cache[k] # 0 THEN CacheRemove(g, s, k) ELSE s
                  IN {Out([s1 EXCEPT !.back[k] = 0], op, TRUE,
-                         IF op.ex \/ s.cache[k] # 0 \/ s.back[k] # 0 THEN 1 ELSE 0, "-")}
+                         IF op.ex \/ s.back[k] # 0 THEN 1 ELSE 0, "-")}
       [] op.kind = "inv" ->
             {Out(IF s.cache[k] # 0 THEN CacheRemove(g, s, k) ELSE s, op, TRUE, 0, "-")}
       [] op.kind = "invall" ->
@@ -168,7 +168,8 @@ Seg(g, s, op, now) ==
                       ELSE IF k \in s.dirty /\ s.cache[k] # 0
                            THEN [s EXCEPT !.back[k] = s.cache[k], !.dirty = @ \ {k}]
                            ELSE s
-            IN {FlushNext(g, s1, [op EXCEPT !.cnt = @ + 1])}
+                written == D3 \in g.dev \/ (k \in s.dirty /\ s.cache[k] # 0)
+            IN {FlushNext(g, s1, [op EXCEPT !.cnt = IF written THEN @ + 1 ELSE @])}
       [] OTHER -> {Out(s, op, TRUE, 0, "-")}
 
 \* ---------------------------------------------------------------- contract
